@@ -16,6 +16,8 @@ CLAIMED={
         "Trusted: engine, interpreted x/net/http2 Framer, cvc5/z3. Out: interleavings finer than flowMu critical sections, writer goroutine/channel capacity, window overflow past 2^31-1, wire bytes written by the Framer."),
  "C10":("processFrame is driven with frames parsed by the real Framer: HEADERS/PUSH_PROMISE + 0..2 CONTINUATION at every split of a valid HPACK block (real hpack decoder), symbolic flags/priority/promised id; RST_STREAM, PRIORITY, PING, GOAWAY, SETTINGS(+ack), WINDOW_UPDATE, DATA with symbolic payloads relayed field-for-field; queued header blocks written and re-parsed; client preface under every 2-segment split. Per-stream FIFO and no-stranding are decided in the C09 step harness.",
         "Trusted: engine, interpreted x/net http2+hpack, cvc5/z3. Out: HPACK re-encoding/table-size changes, relayFrames goroutines and eventual delivery through the writer goroutine, gRPC layers, multiple interleaved streams beyond the C09 step."),
+ "C04":("parseBasicAuth/AuthenticatedRequest for every header value up to 14/18 bytes and symbolic 1..2-byte credentials against a reference base64 decoder; isLocalhost on every spelling of loopback/unspecified literals and solver-decided letter case; time-frame matching for symbolic weekday/hour/entries; the real modifier stack and error path under all 16 on/off combinations of the four controls; the whole connection loop (real http.ReadRequest, modifiers, response writer) over two-request connections with a scripted next hop: refused requests cause 0 round trips and 0 dials and carry the right status/challenge.",
+        "Trusted: engine + base64/ConstantTimeCompare/regexp models (differential self-test on every run), interpreted net/http wire code, cvc5 with z3 fallback. Out: TLS/MITM transport, DNS-level aliases of loopback, deny-domain regexps (C17), longer headers/credentials."),
 }
 NA={
  "C14":"deciding code is the goja JavaScript VM executing PAC scripts; not encodable by a Go-SSA symbolic executor (result-list parsing is covered under C05)",
